@@ -2029,6 +2029,13 @@ class FileIterator(FileStorageFormatter):
                 # If buf is empty, we've reached EOF.
                 if not err.buf:
                     break
+                if len(err.buf) < TRANS_HDR_LEN:
+                    # The file ends in the middle of a transaction
+                    # header: an unfinished transaction, as when it ends
+                    # in the middle of the transaction's data (below).
+                    logger.warning("%s truncated at %s",
+                                   self._file.name, pos)
+                    break
                 raise
 
             if h.tid <= self._ltid:
